@@ -93,54 +93,8 @@ def _value_shape(e):
     return show(e)
 
 
-def _local_name(root, env, at=None):
-    """wire-visible name of a local in a length expression: a local that was itself transferred through the stream is named
-    by how many stream operations ago (in the same function, source order) it was last transferred ($-1 = by the operation
-    just before this one), so renaming it, or moving the code into a helper, changes nothing; any other local keeps its name"""
-    idx = getattr(env, "_stream_calls", None)
-    if idx is None:
-        idx, xfers = {}, {}
-        for n in walk(env.fn.get("body") or {}):
-            if n["k"] in ("Call", "OpCall") and n.get("cls") in STREAMS:
-                idx[id(n)] = len(idx)
-                for a in n.get("args", []):
-                    a = _peel(a)
-                    if is_node(a) and a["k"] == "Ref" and a.get("rk") == "local":
-                        xfers.setdefault(a["id"], []).append(idx[id(n)])
-        env._stream_calls, env._stream_xfers = idx, xfers
-    cur = idx.get(id(at)) if at is not None else None
-    if cur is not None:
-        prev = [i for i in env._stream_xfers.get(root[1], ()) if i < cur]
-        if prev:
-            return "$-%d" % (cur - max(prev))
-    return "$" + root[2]
-
-
-def _shape_with_env(e, env, at=None):
-    """render a length expression with proxies/aliases resolved to member paths"""
-    if not is_node(e):
-        return str(e)
-    k = e["k"]
-    if e.get("val") is not None and k != "Ref":
-        return str(e["val"])
-    if k in ("Ref", "Member", "Subscript"):
-        p = env.path(e)
-        if p is not None:
-            if p[0][0] == "$v":
-                return _local_name(p[0], env, at) + "".join("." + c if not c.startswith("[") else c for c in p[1:])
-            return render(p)
-        return show(e)
-    if k == "Binary":
-        return "(%s %s %s)" % (_shape_with_env(e["l"], env, at), e["op"], _shape_with_env(e["r"], env, at))
-    if k == "Cast":
-        return _shape_with_env(e["e"], env, at)
-    if k == "Sizeof":
-        return str(e.get("val"))
-    if k == "Call":
-        r = e.get("recv")
-        return "%s.%s(%s)" % (_shape_with_env(r, env, at) if is_node(r) else "", e.get("short"),
-                              ",".join(_shape_with_env(a, env, at) for a in e.get("args", [])))
-    return show(e)
+_local_name = paths.local_name
+_shape_with_env = paths.shape_with_env
 
 
 class SchemaBuilder:
